@@ -29,6 +29,11 @@ pub fn run(out: &mut Out, tier: &str, rng: &mut Rng) {
         let ids = ["00000000-0000-0000-0000-000000000000", "d55bcd75-8d30-49af-ac18-ee7cbce7822f", "ffffffff-ffff-ffff-ffff-ffffffffffff"];
         let types = [MachineType::Excavator, MachineType::WheelLoader, MachineType::Dozer, MachineType::Grader, MachineType::Hauler, MachineType::Forestry];
         let mut k = 0usize;
+        // records of exactly 1022 / 1023 / 1024 bytes (24 fixed bytes + the two strings)
+        let mut texts = texts;
+        for total in [1022usize, 1023, 1024] {
+            texts.push("M".repeat(total - 24 - 255));
+        }
         for model in &texts {
             for serial in &texts {
                 let ty = types[k % types.len()];
@@ -65,6 +70,27 @@ pub fn run(out: &mut Out, tier: &str, rng: &mut Rng) {
             }
             out.count(if flags & 1 == 1 { "upgrade streaming" } else { "upgrade not streaming" });
         }
+    }
+    // --- upgrades with names at and around the payload size limit (1 + name = 1022 / 1023 / 1024 bytes), and the hostile
+    // corpus of the session family inside a streaming session: a frame the daemon rejects or drains must not stop the stream
+    for total in [1022usize, 1023, 1024] {
+        for flags in [0x01u8, 0x11, 0x00] {
+            let mut p = vec![b'n'; total];
+            p[0] = flags;
+            let mut evs = vec![Ev::Bytes(sess::frame(0x10, &p))];
+            for _ in 0..2 {
+                evs.push(Ev::Signal(rand_signal(rng)));
+            }
+            sess::run_case(out, &inst, "sess", &evs, flags & 1 == 1);
+            out.count("upgrade at the payload size limit");
+        }
+    }
+    for h in crate::sessgen::hostile_corpus(rng) {
+        let mut st = session_frame(0x01, "s").bytes;
+        st.extend(&h.bytes);
+        let evs = vec![Ev::Bytes(st), Ev::Signal(rand_signal(rng)), Ev::Bytes(sess::frame(0x20, &[0x00])), Ev::Signal(rand_signal(rng))];
+        sess::run_case(out, &inst, "sess", &evs, true);
+        out.count(&format!("hostile corpus in a streaming session: {}", h.class));
     }
     // --- interleavings of command writes with publications
     let n = if thorough { 6000 } else { 600 };
